@@ -74,6 +74,7 @@ type callRec struct {
 	code     uint32
 	modList  []string // installed mod-hash list at call start
 	modCache []int    // its weighted cycle (indexes into modList), if any
+	conList  []string // hosts on the consistent-hash ring at call start
 	activeT1 []string
 	k        int
 	t0, t1   time.Duration
@@ -341,6 +342,7 @@ func (s *S) Run(c *scen.Ctx) {
 				cr.modList = append(cr.modList, e.Host)
 			}
 			cr.modCache = cache
+			_, cr.conList, _ = tars.VerifRotation(s.prx)
 		}
 		if someHash && simrt.Draw(3, "c15.hashcall") == 2 {
 			current.SetClientHash(ctx, simrt.Draw(2, "c14.type"), []uint32{7, 0x80000001, 0x9E3779B9, 0xFFFFFFFF, 1000003}[simrt.Draw(5, "c15.hashcode")])
@@ -425,12 +427,20 @@ func (s *S) logRegistry() {
 // activeEp, which it updates separately; for up to one status-check interval it can name an
 // endpoint the selectors no longer contain. Judging by the list made a call that the
 // all-blocked fallback sent to a random endpoint look like a premature probe: thorough tier,
-// 1 run in 100 000.)
+// 1 run in 100 000. The three selectors are updated one after the other as well, and a refresh
+// that swaps them in between can leave an endpoint in one of them for one more interval: an
+// endpoint counts as in rotation while any selector still routes to it.)
 func (s *S) activeNow() []string {
+	rr, con, mod := tars.VerifRotation(s.prx)
+	seen := map[string]bool{}
 	var a []string
-	l, _ := tars.VerifModHashState(s.prx)
-	for _, e := range l {
-		a = append(a, e.Host)
+	for _, l := range [][]string{rr, con, mod} {
+		for _, h := range l {
+			if !seen[h] {
+				seen[h] = true
+				a = append(a, h)
+			}
+		}
 	}
 	sort.Strings(a)
 	return a
@@ -740,6 +750,9 @@ func (s *S) checkHash(c *scen.Ctx) {
 		// start of the call is a third legitimate view of "the current set")
 		inSel := append([]string(nil), cr.modList...)
 		sort.Strings(inSel)
+		if cr.hashType == 1 {
+			inSel = cr.conList
+		}
 		for _, set := range [][]string{cr.activeAt, cr.activeT1, inSel} {
 			if len(set) == 0 {
 				ok = true // nothing in rotation: any endpoint may be tried (C15)
